@@ -52,12 +52,32 @@ fn sign_check(tname: &str, stat: Stat, v: &Val, n: usize, ctx: &dyn Fn() -> Stri
     }
 }
 
+/// a variance-type quantity is at most sum (x - mean)^2 <= n·(max - min)^2; where that bound is
+/// far below f64::MAX the quantity is a real number, so not +inf either
+fn finite_check(tname: &str, stat: Stat, v: &Val, xs: &[f64], ctx: &dyn Fn() -> String, out: &mut Vec<Violation>) {
+    if xs.len() < min_n(stat) {
+        return;
+    }
+    let lo = xs.iter().cloned().fold(f64::INFINITY, f64::min);
+    let hi = xs.iter().cloned().fold(f64::NEG_INFINITY, f64::max);
+    let bound = xs.len() as f64 * (hi - lo) * (hi - lo);
+    if let Val::F(g) = v {
+        if g.is_infinite() && bound < 1e306 {
+            out.push(Violation {
+                sig: format!("{tname}.{}:infinite", stat.name()),
+                detail: format!("{tname}::{} = {g:?} for {}, but it is at most n·(max - min)^2 = {bound:e}", stat.name(), ctx()),
+            });
+        }
+    }
+}
+
 fn uni_judge<T: Chunky<Item = f64>>() -> Judge<T> {
     Box::new(|items: &[f64], obs: &Obs| {
         let mut out = Vec::new();
         for (s, v) in &obs.vals {
             if is_variance(*s) {
                 sign_check(T::NAME, *s, v, items.len(), &|| format!("{items:?}"), &mut out);
+                finite_check(T::NAME, *s, v, items, &|| format!("{items:?}"), &mut out);
             }
             if *s == Stat::Mean {
                 range_check(T::NAME, *s, v, items, &mut out);
@@ -75,6 +95,8 @@ fn cov_judge() -> Judge<Covariance> {
         for (s, v) in &obs.vals {
             if is_variance(*s) {
                 sign_check("Covariance", *s, v, items.len(), &|| format!("{items:?}"), &mut out);
+                let coord = if matches!(s, Stat::PopVarY | Stat::SampleVarY) { &ys } else { &xs };
+                finite_check("Covariance", *s, v, coord, &|| format!("{items:?}"), &mut out);
             }
             if *s == Stat::MeanX {
                 range_check("Covariance", *s, v, &xs, &mut out);
@@ -96,7 +118,10 @@ fn weighted_judge<T: Chunky<Item = (f64, f64)>>() -> Judge<T> {
         let n = items.len();
         for (s, v) in &obs.vals {
             match s {
-                Stat::PopVar | Stat::SampleVar => sign_check(T::NAME, *s, v, n, &|| format!("{items:?}"), &mut out),
+                Stat::PopVar | Stat::SampleVar => {
+                    sign_check(T::NAME, *s, v, n, &|| format!("{items:?}"), &mut out);
+                    finite_check(T::NAME, *s, v, &xs, &|| format!("{items:?}"), &mut out);
+                }
                 Stat::VarOfWMean | Stat::WError if wsum > 0.0 => sign_check(T::NAME, *s, v, n, &|| format!("{items:?}"), &mut out),
                 Stat::UnweightedMean => range_check(T::NAME, *s, v, &xs, &mut out),
                 Stat::WMean if wsum > 0.0 => {
@@ -449,10 +474,8 @@ impl<T: Chunky> LargeRunMerge<T> {
         let bound = n as f64 * (hi - lo) * (hi - lo);
         let ctx = || format!("the merge of constant runs {runs:?} (value, length){}", self.lift_note);
         for (s, v) in &obs.vals {
-            let weighted_only = matches!(s, Stat::VarOfWMean | Stat::WError);
             if is_variance(*s) || (T::NAME.starts_with("WeightedMean") && matches!(s, Stat::PopVar | Stat::SampleVar)) {
                 sign_check(T::NAME, *s, v, n, &ctx, &mut out);
-                let _ = weighted_only;
                 if let Val::F(g) = v {
                     if g.is_infinite() && bound < 1e306 && n >= min_n(*s) {
                         out.push(Violation {
